@@ -2089,6 +2089,8 @@ pub fn cli(ctx: &Ctx, args: &[String]) -> i32 {
             let max_defs: usize = arg(args, "--max-defs").and_then(|s| s.parse().ok()).unwrap_or(usize::MAX);
             let part: usize = arg(args, "--part").and_then(|s| s.parse().ok()).unwrap_or(0);
             let parts: usize = arg(args, "--parts").and_then(|s| s.parse().ok()).unwrap_or(1);
+            // bound of the number of tour histories of this invocation (interpreter arm of the quick tier)
+            let max_histories: u64 = arg(args, "--max-histories").and_then(|s| s.parse().ok()).unwrap_or(u64::MAX);
             let mut progress = crate::Progress::open(arg(args, "--progress"));
             // a different slice of the definitions for each property's check
             let defs = select_defs(ctx, seed.wrapping_add(focus as u64), max_defs);
@@ -2105,6 +2107,9 @@ pub fn cli(ctx: &Ctx, args: &[String]) -> i32 {
                     let case = Case { def: e.def.to_string(), cap: e.cap.to_string(), cfg: RunCfg { faults, init_skipped }, ops };
                     if trace {
                         eprintln!("CASE {}", serde_json::to_string(&case).unwrap());
+                    }
+                    if index >= max_histories {
+                        break 'outer;
                     }
                     progress.mark(index);
                     index += 1;
